@@ -51,6 +51,17 @@ def run(chk, replay=None):
             if d["init"]["eps"] != want_eps or d["init"]["step"] != want_step:
                 chk.violation("init-index-not-clipped", f"init(starting_eps={eps}, starting_step={step}) gives eps={d['init']['eps']} step={d['init']['step']}, "
                               f"expected saturation to eps={want_eps} step={want_step}", case)
+            # the starting episode given to init() is what the steps see: every step state the API hands out (reset()/step() return values = the supervisor's
+            # next step input; the per-node views graph_state.step_state[n] the runner feeds to the step functions) carries the graph state's episode
+            es = d.get("eps_seen")
+            if es is not None:
+                chk.feat("eps-seen-by-step-states:checked" + (":eps>0" if want_eps > 0 else ""))
+                bad = [("returned by reset()/step()", v) for v in es["returned"] if v != d["init"]["eps"]] + \
+                      [(f"view step_state[{nm}] after init()", v) for nm, v in sorted(es["views_init"].items()) if v != d["init"]["eps"]] + \
+                      [(f"view step_state[{nm}]", v) for nm, v in sorted(es["views"].items()) if v != d["init"]["eps"]]
+                if bad:
+                    chk.violation("step-state-eps-not-starting-episode", f"init(starting_eps={eps}) selects episode {d['init']['eps']}, but the step state "
+                                  f"{bad[0][0]} carries eps={bad[0][1]} ({len(bad)} such step states)", case)
             groups = [("run_eager", "run_jit"), ("run_eager", "rollout_carry"), ("run_eager", "rollout_full_last"),
                       ("reset_step", "reset_step_jit"), ("reset_step", "run_then_until"), ("reset_step", "override"), ("override", "override_stale_seq")]
             for a, b in groups:
